@@ -111,6 +111,10 @@ func (self *StreamDecoder) Decode(val interface{}) (err error) {
 
 		self.scanned += int64(self.scanp)
 		self.scanp = 0
+	} else if self.err == nil {
+		// More() is false although nothing failed: the next byte is a stray ']' or '}'.
+		// Report it, otherwise Decode would succeed for ever without consuming input.
+		self.setErr(SyntaxError{0, string(self.buf[self.scanp : self.scanp+1]), types.ERR_INVALID_CHAR, ""})
 	}
 
 	return self.err
